@@ -4,6 +4,8 @@ import (
 	"encoding/json"
 	"fmt"
 	"strings"
+	"sync"
+	"sync/atomic"
 
 	"verifharness/internal/gen"
 	"verifharness/internal/real"
@@ -22,6 +24,15 @@ type c16Case struct {
 	Counts map[string]int `json:"counts,omitempty"`
 	Msg    *ref.Msg       `json:"msg,omitempty"`
 	Text   string         `json:"text,omitempty"`
+}
+
+func firstDiff(a, b []string) int {
+	for i := range a {
+		if i >= len(b) || a[i] != b[i] {
+			return i
+		}
+	}
+	return len(a)
 }
 
 func init() { register("C16", "exploration", runC16, replayC16) }
@@ -381,6 +392,56 @@ func runC16(c *ctx) {
 			}
 		}
 	}
+	// the first listing an object ever gets, asked for by eight goroutines at the same moment (released by a spin
+	// barrier): each gets every name once, in printed order - leaf items, lists, messages that were never inside a list
+	for round := 0; round < c.pick(150, 1500); round++ {
+		rr := rng.New(uint64(16000 + round))
+		n := 50 + rr.Intn(3000)
+		names := make([]string, n)
+		args := make([]interface{}, n)
+		for i := range names {
+			names[i] = fmt.Sprintf("%c%d_%d", 'a'+rune(rr.Intn(26)), rr.Intn(100000), i)
+			args[i] = names[i]
+		}
+		var obj interface{ Variables() []string }
+		switch round % 5 {
+		case 0:
+			obj = ast.NewUintNode(2, args...)
+		case 1:
+			obj = ast.NewFloatNode(8, args...)
+		case 2:
+			obj = ast.NewBinaryNode(args...)
+		case 3:
+			obj = ast.NewListNode(args...)
+		default:
+			obj = ast.NewDataMessage("m", 1, 1, 0, "H->E", ast.NewIntNode(4, args...))
+		}
+		const G = 8
+		var arrived int32
+		got := make([][]string, G)
+		var wg sync.WaitGroup
+		for g := 0; g < G; g++ {
+			wg.Add(1)
+			go func(g int) {
+				defer wg.Done()
+				defer func() { recover() }()
+				atomic.AddInt32(&arrived, 1)
+				for atomic.LoadInt32(&arrived) < G {
+				}
+				got[g] = append([]string(nil), obj.Variables()...)
+			}(g)
+		}
+		wg.Wait()
+		c.NoteBulk(G, G)
+		c.Class("first-listing-asked-by-several-goroutines")
+		for g := range got {
+			if !real.EqStrs(got[g], names) {
+				c.Violation("C16/first-listing-under-concurrency", fmt.Sprintf("a fresh object with %d variables listed for the first time by %d goroutines at once: goroutine %d got %d names (first difference at %d)", n, G, g, len(got[g]), firstDiff(got[g], names)), c16Case{Source: "concurrent-first-listing"})
+				round = 1 << 30
+				break
+			}
+		}
+	}
 	// one list object used as the first element of two parents (user-built sharing): each parent keeps its own names
 	for nsub := 1; nsub <= 17; nsub++ {
 		var subArgs []interface{}
@@ -454,7 +515,7 @@ func runC16(c *ctx) {
 			}
 		}
 	}
-	c.Required = []string{"item-just-beyond-the-limit", "shared-sub-list", "same-ellipsis-name-twice", "wide-item-with-variables", "list-longer-than-any-item", "n-variables-in-one-node", "rename-refused", "rename-accepted", "object/direct", "object/expanded", "object/message", "object/derived", "object/parsed", "variable-free", "with-variables"}
+	c.Required = []string{"item-just-beyond-the-limit", "shared-sub-list", "same-ellipsis-name-twice", "wide-item-with-variables", "first-listing-asked-by-several-goroutines", "list-longer-than-any-item", "n-variables-in-one-node", "rename-refused", "rename-accepted", "object/direct", "object/expanded", "object/message", "object/derived", "object/parsed", "variable-free", "with-variables"}
 }
 
 func replayC16(c *ctx, raw json.RawMessage) {
